@@ -409,6 +409,61 @@ func init() {
 		return a
 	})
 	add("list mixed", 3, func(g *G) []string { return []string{"LLEN", g.Key()} })
+	// look an element up by position, change the list at one end (the looked-up element may leave and
+	// others arrive), look positions up again: whatever a lookup left behind must not outlive the change.
+	// Issued verbatim as one sequence.
+	add("list", 3, func(g *G) []string {
+		k := g.Key()
+		n := 2 + g.R.Intn(5)
+		first := []string{"RPUSH", k}
+		for i := 0; i < n; i++ {
+			first = append(first, fmt.Sprintf("p%d", i))
+		}
+		pos := g.R.Intn(n)
+		idx := strconv.Itoa(pos)
+		if g.R.Intn(3) == 0 {
+			idx = strconv.Itoa(pos - n) // the same position counted from the tail
+		}
+		lookup := [][]string{{"LINDEX", k, idx}, {"LSET", k, idx, "set"}, {"LRANGE", k, idx, idx}}[g.R.Intn(3)]
+		st := []Step{{1, []string{"DEL", k}}, {1, first}, {1, lookup}}
+		tail := g.R.Intn(4) > 0
+		pops := 1 + g.R.Intn(n-1)
+		if tail && g.R.Intn(2) == 0 {
+			pops = n - pos // the looked-up element itself leaves
+			if pops >= n {
+				pops = n - 1
+			}
+		}
+		switch g.R.Intn(4) {
+		case 0:
+			st = append(st, Step{1, []string{g.pick("LMPOP"), "1", k, map[bool]string{true: "RIGHT", false: "LEFT"}[tail], "COUNT", strconv.Itoa(pops)}})
+		case 1:
+			if tail {
+				st = append(st, Step{1, []string{"LTRIM", k, "0", strconv.Itoa(n - pops - 1)}})
+			} else {
+				st = append(st, Step{1, []string{"LTRIM", k, strconv.Itoa(pops), "-1"}})
+			}
+		default:
+			for i := 0; i < pops; i++ {
+				st = append(st, Step{1, []string{map[bool]string{true: "RPOP", false: "LPOP"}[tail], k}})
+			}
+		}
+		pushes := 1 + g.R.Intn(4)
+		push := []string{map[bool]string{true: "RPUSH", false: "LPUSH"}[tail || g.R.Intn(3) == 0], k}
+		for i := 0; i < pushes; i++ {
+			push = append(push, fmt.Sprintf("q%d", i))
+		}
+		st = append(st, Step{1, push})
+		for d := -1; d <= 1; d++ {
+			if pos+d >= 0 {
+				st = append(st, Step{1, []string{"LINDEX", k, strconv.Itoa(pos + d)}})
+			}
+		}
+		st = append(st, Step{1, []string{"LSET", k, strconv.Itoa(pos), "again"}}, Step{1, []string{"LRANGE", k, "0", "-1"}},
+			Step{1, []string{"LRANGE", k, strconv.Itoa(pos), strconv.Itoa(pos + 1)}})
+		g.Script = append(g.Script, st...)
+		return []string{"LLEN", k}
+	})
 	add("list mixed", 5, func(g *G) []string { return []string{"LINDEX", g.Key(), g.Int()} })
 	add("list mixed keys expiry", 8, func(g *G) []string { return []string{"LRANGE", g.Key(), g.Int(), g.Int()} })
 	add("list mixed", 5, func(g *G) []string { return []string{"LSET", g.Key(), g.SmallInt(), g.Elem()} })
